@@ -1585,3 +1585,69 @@ Proof.
   intros H1 H2. destruct (rp_register_gen calls [] []) as [A B]. unfold rp_params. apply in_app_iff.
   destruct b; [left; apply A | right; apply B]; right; eauto.
 Qed.
+
+(* ------------------------------------------------------------------ every requested class is instantiated
+   The "already present" test of add_convergence_controller is EXACT class membership: identities
+   (ci_id) are compared, no subclass relation enters cc_add.  An instance of a derived class never
+   stands in for a requested base class: whatever the list holds, the requested class is in the list
+   afterwards (and, when it is new, so are the classes its dependencies request). *)
+
+Definition root_id (c : cctree) : nat := match c with CC cid _ _ => cid end.
+
+Lemma cc_add_incl user mpi c : forall st passed x, In x (ids st) -> In x (ids (cc_add user mpi st passed c)).
+Proof.
+  induction c as [cid defaults deps IH] using cctree_ind'. intros st passed x Hx. rewrite cc_add_unfold.
+  destruct (existsb _ st); auto. unfold ids. rewrite map_app, in_app_iff. left. fold (ids st) in Hx.
+  revert st Hx. induction IH as [|pd r Hpd Hr IHr]; intros st Hx; simpl; [assumption|].
+  apply IHr. apply Hpd. exact Hx.
+Qed.
+
+Theorem cc_add_root_present user mpi st passed c : In (root_id c) (ids (cc_add user mpi st passed c)).
+Proof.
+  destruct c as [cid defaults deps]. rewrite cc_add_unfold. simpl root_id.
+  destruct (existsb _ st) eqn:Ex; [now apply existsb_ids|].
+  unfold ids. rewrite map_app, in_app_iff. right. simpl. now left.
+Qed.
+
+Lemma fold_deps_incl user mpi deps : forall st x, In x (ids st) ->
+  In x (ids (fold_left (fun s pd => cc_add user mpi s (fst pd) (snd pd)) deps st)).
+Proof. induction deps as [|pd r IH]; intros st x Hx; simpl; auto. apply IH. now apply cc_add_incl. Qed.
+
+Theorem cc_add_new_deps_present user mpi st passed cid defaults deps pd :
+  ~ In cid (ids st) -> In pd deps ->
+  In (root_id (snd pd)) (ids (cc_add user mpi st passed (CC cid defaults deps))).
+Proof.
+  intros Hn Hpd. rewrite cc_add_unfold.
+  destruct (existsb _ st) eqn:Ex; [apply existsb_ids in Ex; tauto|].
+  unfold ids. rewrite map_app, in_app_iff. left. fold (ids (fold_left (fun s pd0 => cc_add user mpi s (fst pd0) (snd pd0)) deps st)).
+  clear Ex Hn. revert st. induction deps as [|pd0 r IH]; intros st; [destruct Hpd|]. simpl.
+  destruct Hpd as [->|Hpd]; [apply fold_deps_incl, cc_add_root_present | now apply IH].
+Qed.
+
+Lemma fold_cc_add_roots user mpi (pf : cctree -> dict atom) trees : forall st,
+  (forall x, In x (ids st) -> In x (ids (fold_left (fun s c => cc_add user mpi s (pf c) c) trees st))) /\
+  (forall c, In c trees -> In (root_id c) (ids (fold_left (fun s c => cc_add user mpi s (pf c) c) trees st))).
+Proof.
+  induction trees as [|c r IH]; intros st; simpl; [split; auto; intros c []|].
+  destruct (IH (cc_add user mpi st (pf c) c)) as [A B]. split.
+  - intros x Hx. apply A. now apply cc_add_incl.
+  - intros c' [<-|Hc]; [apply A, cc_add_root_present | now apply B].
+Qed.
+
+(* every class the user lists and every base class of the controller is instantiated, whatever else
+   (e.g. classes derived from it) was registered before it and in whatever order the user lists them *)
+Theorem cc_build_requested_present user mpi classes base c :
+  In c (classes ++ base) -> In (root_id c) (ids (cc_build user mpi classes base)).
+Proof.
+  intros Hc. unfold cc_build.
+  destruct (fold_cc_add_roots user mpi (fun c => user_params user (match c with CC cid _ _ => cid end)) classes []) as [_ B1].
+  destruct (fold_cc_add_roots user mpi (fun _ => [])  base
+              (fold_left (fun s c0 => cc_add user mpi s (user_params user (match c0 with CC cid _ _ => cid end)) c0) classes [])) as [A2 B2].
+  apply in_app_iff in Hc. destruct Hc as [Hc|Hc]; [apply A2, B1, Hc | apply B2, Hc].
+Qed.
+
+(* a derived class (7, registered first through a dependency of 5) and its base class (3): both are there *)
+Example cc_derived_then_base :
+  map ci_id (cc_build [(5, []); (3, [("rel_error", ABool true)])] (ABool false)
+               [CC 5 [] [([], CC 7 [] [])]; CC 3 [] []] []) = [7; 5; 3].
+Proof. vm_compute. reflexivity. Qed.
